@@ -32,8 +32,146 @@ pub fn dispatch(cmd: &str, args: &Args) -> Option<i32> {
         "c05-convert" => convert(args),
         "c05-one" => one(args),
         "c05-long" => long_word(args),
+        "c05-text" => text_words(args),
         _ => return None,
     })
+}
+
+// ------------------------------------------------------------------------------------------
+// c05-text: boxworks-text's add_word (the way a font's program reaches a horizontal list).  Small random
+// fonts with and without a boundary character go the road fonts take in practice (property list ->
+// .tfm bytes -> loaded -> compile_from_tfm_file); every word up to three letters is run directly
+// (`run`) and through TextPreprocessorImpl::add_word.  The list add_word builds is projected to run
+// items - node kinds, characters, ligature originals and flags; its kern amounts are scaled by the
+// font size (C17's function), so when the list has the same shape as `run`'s output the amounts shown
+// to TLC are `run`'s, otherwise the list is shown as it is (and cannot be accepted).
+// ------------------------------------------------------------------------------------------
+fn text_words(args: &Args) -> i32 {
+    use boxworks::ds;
+    use boxworks::TextPreprocessor;
+    quiet_panics();
+    let seed: u64 = args.num("seed", 1);
+    let nfonts: usize = args.num("fonts", 60);
+    let mut rng = Rng::new(seed ^ 0x7E87);
+    let mut out = Out::new(args.str("out"));
+    const LETTERS: &[u8] = b"abs";
+    const RESULTS: &[u8] = b"xyz";
+    const FORM_NAMES: [&str; 8] = ["LIG", "LIG/", "/LIG", "/LIG/", "LIG/>", "/LIG>", "/LIG/>", "/LIG/>>"];
+    let words = words_upto(LETTERS, 3);
+    let mut made = 0;
+    let mut guard = 0;
+    while made < nfonts && guard < nfonts * 20 {
+        guard += 1;
+        let bc: Option<u8> = match rng.below(3) {
+            0 => None,
+            _ => Some(b'|'),
+        };
+        // one to three rules; with a boundary character most fonts have a rule against it, and a third
+        // of the fonts have *only* rules against the boundaries
+        let mut pl = String::from(
+            "(DESIGNSIZE R 10.0)\n(FONTDIMEN\n (SLANT R 0.0)\n (SPACE R 0.3)\n (STRETCH R 0.15)\n (SHRINK R 0.1)\n (XHEIGHT R 0.4)\n (QUAD R 1.0)\n (EXTRASPACE R 0.1)\n )\n",
+        );
+        if let Some(b) = bc {
+            pl.push_str(&format!("(BOUNDARYCHAR O {:o})\n", b));
+        }
+        for c in LETTERS.iter().chain(RESULTS).chain(b"|") {
+            pl.push_str(&format!("(CHARACTER O {:o} (CHARWD R 0.5))\n", c));
+        }
+        pl.push_str("(LIGTABLE\n");
+        let only_boundary = bc.is_some() && rng.chance(1, 3);
+        let nlabels = 1 + rng.below(2);
+        let mut used: Vec<u8> = vec![];
+        for _ in 0..nlabels {
+            let l = *rng.pick(LETTERS);
+            if used.contains(&l) {
+                continue;
+            }
+            used.push(l);
+            pl.push_str(&format!(" (LABEL O {:o})\n", l));
+            for _ in 0..1 + rng.below(2) {
+                let r = match bc {
+                    Some(b) if only_boundary || rng.chance(1, 2) => b,
+                    _ => *rng.pick(LETTERS),
+                };
+                if rng.chance(1, 3) {
+                    pl.push_str(&format!(" (KRN O {:o} R 0.{})\n", r, 1 + rng.below(8)));
+                } else {
+                    pl.push_str(&format!(" ({} O {:o} O {:o})\n", FORM_NAMES[rng.below(8) as usize], r, rng.pick(RESULTS)));
+                }
+            }
+            pl.push_str(" (STOP)\n");
+        }
+        if bc.is_some() && !only_boundary && rng.chance(1, 4) {
+            pl.push_str(&format!(" (LABEL BOUNDARYCHAR)\n (KRN O {:o} R 0.2)\n (STOP)\n", rng.pick(LETTERS)));
+        }
+        pl.push_str(" )\n");
+        let loaded = catch(|| -> Option<(Value, tfm::File, CompiledProgram, Vec<InfiniteLoopError>)> {
+            let (plf, warnings) = tfm::pl::File::from_pl_source_code(&pl);
+            if !warnings.is_empty() {
+                return None;
+            }
+            let t: tfm::File = plf.into();
+            let bytes = t.serialize();
+            let mut file = tfm::File::deserialize(&bytes).0.ok()?;
+            let packed: BTreeMap<u8, u8> = file.lig_kern_entrypoints().into_iter().map(|(c, e)| (c.0, e)).collect();
+            let pj = program_json(&file.lig_kern_program, &file.kerns, file.header.design_size, &packed, true);
+            let (cp, errs) = CompiledProgram::compile_from_tfm_file(&mut file);
+            Some((pj, file, cp, errs))
+        });
+        let Ok(Some((pj, file, cp, errs))) = loaded else { continue };
+        if !errs.is_empty() {
+            continue; // a looping program is not run (the other generators report loops)
+        }
+        made += 1;
+        let mut tp = boxworks_text::TextPreprocessorImpl::new(boxworks_text::Params::plain_tex_defaults());
+        tp.register_font(0, &file, cp.clone());
+        tp.activate_font(0);
+        let mut rs: Vec<Value> = vec![];
+        for w in &words {
+            let spec = RunSpec { w: w.clone(), nl: false, ro: None };
+            let direct = run_json(&cp, &spec);
+            let word: String = w.iter().map(|b| *b as char).collect();
+            let listed = catch(|| {
+                let mut list: Vec<ds::Horizontal> = vec![];
+                tp.add_word(&word, &mut list);
+                list
+            });
+            let mut via = json!({"w": w, "nl": 0, "ro": 256, "via": "add_word"});
+            match listed {
+                Err((site, msg)) => via["panic"] = json!([site, msg]),
+                Ok(list) => {
+                    let items: Vec<Value> = list
+                        .iter()
+                        .map(|n| match n {
+                            ds::Horizontal::Char(c) => json!([0, c.char as u32]),
+                            ds::Horizontal::Ligature(l) => json!([1, l.char as u32,
+                                l.original_chars.chars().map(|c| c as u32).collect::<Vec<_>>(),
+                                l.includes_left_boundary as u8, l.includes_right_boundary as u8]),
+                            ds::Horizontal::Kern(k) => json!([2, k.width.0]),
+                            _ => json!([9, 0]),
+                        })
+                        .collect();
+                    let shape = |v: &Value| -> Value {
+                        if v[0] == 2 {
+                            json!([2])
+                        } else {
+                            v.clone()
+                        }
+                    };
+                    let same_shape = direct["out"].as_array().map(|d| {
+                        d.len() == items.len() && d.iter().zip(items.iter()).all(|(a, b)| shape(a) == shape(b))
+                    });
+                    via["out"] = if same_shape == Some(true) { direct["out"].clone() } else { Value::Array(items) };
+                }
+            }
+            rs.push(direct);
+            rs.push(via);
+        }
+        out.line(&json!({"p": pj, "tag": "text-font", "errs": errs_json(&errs), "runs": rs}));
+    }
+    out.flush();
+    eprintln!("c05-text: {made} fonts x {} words x 2 roads", words.len());
+    0
 }
 
 // ------------------------------------------------------------------------------------------
